@@ -221,7 +221,7 @@ class Flow(object):
         p = _path_of(e)
         if p is None:
             return False
-        if not (p in self.noneable or p in self.none_attrs or (p.startswith('self.') and p[5:] in self.none_attrs)
+        if not (p in self.noneable or (p.startswith('self.') and p[5:] in self.none_attrs)
                 or ('.' in p and p.split('.')[-1] in self.none_attrs and p.split('.')[0] in ('self', 'spawn'))):
             return False
         f = dict(facts).get(p)
